@@ -25,7 +25,7 @@ COMPONENTS = {"real": ["pyjelly frame iterator, Decoder living across frames, fl
                        "shared Stream, Graphs/DatasetsFrameFlow"],
               "stub": ["reframe fault (simkit.wire row slicing: rows are never re-encoded)", "oracle: simkit.refdec"]}
 ASSUMPTIONS = ["frames produced for empty inputs are not judged", "rdflib sinks compared as sets"]
-PROBES = ["big_group_runs", "grouped_write_flat_logical", "reframe_runs", "grouped_write_runs", "empty_frames_inserted", "metadata_frames", "leading_empty_frame",
+PROBES = ["frames_without_statements", "first_input_empty", "grouped_write_with_namespaces", "big_group_runs", "grouped_write_flat_logical", "reframe_runs", "grouped_write_runs", "empty_frames_inserted", "metadata_frames", "leading_empty_frame",
           "single_row_frames", "rdflib_runs", "empty_inputs", "physical_GRAPHS"]
 SHRINK_LISTS = ["ops", "items"]
 
@@ -80,8 +80,19 @@ def gen_grouped(rng):
                             frame_size=250 if big else rng.choice([1, 3, 250]), max_names=mn, max_prefixes=mp, max_datatypes=md,
                             generalized=flags["generalized"], rdf_star=flags["rdf_star"], entry=entry)
     cfg["groups"] = groups
-    return {"kind": "grouped_write", "cfg": cfg, "integration": integration,
-            "ops": [["stmt", *T.to_json(st)] for st in stmts]}
+    ops = [["stmt", *T.to_json(st)] for st in stmts]
+    if integration == "generic" and not big and rng.random() < 0.25:
+        # namespace declarations on; the bindings sit on the first input or on every input
+        cfg["ns"] = True
+        cfg["ns_all_groups"] = rng.random() < 0.5
+        pools = W.Pools(rng, 3, 3, 1)
+        nss = W.gen_namespaces(rng, pools, rng.randint(1, 3))
+        need = W.max_needs(stmts, nss, prefix_enabled=cfg["max_prefixes"] > 0, graphs_type=physical == "GRAPHS")
+        if cfg["max_prefixes"]:
+            cfg["max_prefixes"] = max(cfg["max_prefixes"], need[0])
+        cfg["max_names"] = max(cfg["max_names"], need[1])
+        ops = [["ns", p, i] for p, i in nss] + ops
+    return {"kind": "grouped_write", "cfg": cfg, "integration": integration, "ops": ops}
 
 
 def repartition(rows, sim):
@@ -194,30 +205,35 @@ def grouped_write_side(plan, sim):
     if integration == "rdflib":
         sim.count("rdflib_runs")
     sim.count("physical_" + cfg["physical"])
-    stmts, _ = nodes.split_ops(plan["ops"])
+    stmts, nss = nodes.split_ops(plan["ops"])
     groups = cfg["groups"]
     if 0 in groups:
         sim.count("empty_inputs")
+    if groups and groups[0] == 0:
+        sim.count("first_input_empty")
+    if nss:
+        sim.count("grouped_write_with_namespaces")
     sim.event("grouped_write", tuple(groups), cfg["entry"])
     try:
-        data = write_grouped(cfg, stmts, groups)
+        data = write_grouped(cfg, stmts, groups, nss)
     except Exception as e:  # noqa: BLE001
         return [{"clause": "C07.grouped_write_raised", "sig": {"exc": type(e).__name__},
                  "msg": f"{type(e).__name__}: {e}"}], None
     return judge_grouped(plan, sim, cfg, integration, stmts, groups, data)
 
 
-def write_grouped(cfg, stmts, groups):
+def write_grouped(cfg, stmts, groups, nss=()):
     out = io.BytesIO()
+    nss = list(nss)
     if True:
         if cfg["entry"] == "grouped_file":
-            nodes.integ_mod(cfg).grouped_stream_to_file(nodes.group_gen(cfg, stmts, [], groups), out,
+            nodes.integ_mod(cfg).grouped_stream_to_file(nodes.group_gen(cfg, stmts, nss, groups), out,
                                                         options=nodes.make_options(cfg))
         else:
             from pyjelly.serialize.ioutils import write_delimited
             stream = nodes.make_stream(cfg)
             m = nodes.integ_mod(cfg)
-            for sink in nodes.group_gen(cfg, stmts, [], groups):
+            for sink in nodes.group_gen(cfg, stmts, nss, groups):
                 for fr in m.stream_frames(stream, sink):
                     write_delimited(fr, out)
     return out.getvalue()
@@ -235,6 +251,13 @@ def judge_grouped(plan, sim, cfg, integration, stmts, groups, data):
         pos += n
     nonempty = [g for g in inputs if g]
     got_frames = [[tuple(T.norm(t) for t in st) for st in fi if st[0] != "ns"] for fi in ref.frames_items]
+    # The property speaks about non-empty inputs only ("exactly one frame per non-empty input"): each must
+    # get one frame of its own, in order.  What an EMPTY input writes is left open by the statement - an
+    # options-only frame when it comes first, a frame of declarations when it has bindings and declarations are
+    # on, a frame holding an empty default graph for an rdflib Dataset through a GraphStream, nothing otherwise
+    # (DESIGN 12.9, review round 2) - so frames without a statement are counted as a probe, not judged.
+    if len(got_frames) != len([f for f in got_frames if f]):
+        sim.count("frames_without_statements", len(got_frames) - len([f for f in got_frames if f]))
     got_frames = [f for f in got_frames if f]
     v = []
     if cfg["logical"] in (1, 2):
